@@ -120,6 +120,7 @@ pub fn gen_plan(cx: &mut Ctx, o: &PlanOpts) -> Plan {
     let mut bounds = Vec::new();
     let mut metas = Vec::new();
     let mut burst_plan = false;
+    let mut burst_range = 0..0usize;
     let pair_cap = effective(bufsize).saturating_sub(13).min(40);
     for i in 0..k {
         let id = gen_id(cx);
@@ -193,14 +194,17 @@ pub fn gen_plan(cx: &mut Ctx, o: &PlanOpts) -> Plan {
         }
         // scale: rarely a burst of 1100..3000 unknown-type records in the middle of the stream phase, on a connection
         // whose buffer holds the whole burst (forced below)
-        if (o.either_noise || !o.closed_loop) && !tiny && !srecs.is_empty() && cx.ch.chance(1, 150) {
-            let n = cx.ch.range(1100, 3000);
+        // (closed-loop burst plans: 257..1500 of them, sent as one burst - see the segments below)
+        let one_burst = o.closed_loop && o.burst;
+        if (o.either_noise || !o.closed_loop || one_burst) && !tiny && !burst_plan && !srecs.is_empty() && cx.ch.chance(1, if one_burst { 60 } else { 150 }) {
+            let n = if one_burst { cx.ch.one_of(&[257usize, 258, 300, 700, 1500]) } else { cx.ch.range(1100, 3000) };
             let at = cx.ch.range(0, srecs.len());
             let t = cx.ch.one_of(&[0u8, 12, 13, 127, 255]);
             let b: Vec<Rec> = (0..n).map(|_| Rec::new(t, 0, Vec::new(), 0)).collect();
             srecs.splice(at..at, b);
             burst_plan = true;
-            cx.probe("burst_of_1100plus_reply_records");
+            if one_burst { let g = all.len() + recs.len() + at; burst_range = g..g + n; }
+            cx.probe(if one_burst { "closed_loop_burst_over_256_records" } else { "burst_of_1100plus_reply_records" });
         }
         recs.extend(srecs);
         junk_reserved(cx, &mut recs);
@@ -258,6 +262,9 @@ pub fn gen_plan(cx: &mut Ctx, o: &PlanOpts) -> Plan {
                     gated = need;
                 }
                 segs.push(Seg { end, gate: Gate::AfterEndRequests(req_idx) });
+            } else if burst_range.contains(&i) && i > burst_range.start {
+                // the large burst arrives as one burst
+                segs.last_mut().expect("seg").end = end;
             } else if need > gated && !(o.burst && cx.ch.chance(1, 2)) {
                 segs.push(Seg { end, gate: Gate::AfterReplies(need) });
                 gated = need;
@@ -1547,7 +1554,7 @@ fn handler_violations(out: &ConnOutcome) -> VResult {
 
 pub const C08_PROBES: &[&str] = &[
     "query_before_first_request", "query_between_requests", "query_during_params", "query_mid_stream", "query_after_stream_end",
-    "suspension_points_checked",
+    "suspension_points_checked", "closed_loop_burst_over_256_records",
 ];
 
 /// C08 with a duplex handler: writer sub-tasks hold the output lock across Pending writes while a reader
